@@ -46,7 +46,8 @@ def load_all():
     from . import calendar_t1   # noqa
     from . import lemmas_cal    # noqa
     import importlib
-    for m in ("timezone_t1", "duration_t2", "timepoint_t2", "recurrence_t3"):
+    for m in ("timezone_t1", "duration_t2", "timepoint_t2", "recurrence_t3",
+              "ghost"):
         try:
             importlib.import_module("contracts." + m)
         except ModuleNotFoundError as e:
